@@ -21,9 +21,13 @@ PROPS = ["C01", "C02", "C03", "C04", "C05", "C06", "C08", "C09", "C10", "C13", "
          "C17", "C19", "C20"]
 
 
+chk_holder = []
+
+
 def run_property(pid, tier, repo=None, seed=0, liveness=None):
     prog = Program(repo)
     chk = Check(pid, tier, prog, seed)
+    chk_holder[:] = [chk]
     mod = importlib.import_module(f"sa.props.{pid.lower()}")
     mod.run(chk)
     if tier == "thorough" and liveness is not False and hasattr(mod, "MUTANTS"):
@@ -56,6 +60,12 @@ def main(argv=None):
         return chk.finish()
     except AnalysisError as e:
         print(f"ANALYSIS-ERROR property={a.pid}: {e}")
+        if chk_holder and chk_holder[0].findings:
+            # definite violations found before the analysis gave up are still violations
+            chk_holder[0].note(f"analysis incomplete: {e}")
+            chk_holder[0].rules = {k: dict(v, floor=0) for k, v in chk_holder[0].rules.items()}
+            code = chk_holder[0].finish()
+            return code if code == 1 else 2
         return 2
     except Exception:  # noqa: BLE001  every traceback is an analysis error, never a violation
         print(f"ANALYSIS-ERROR property={a.pid}: internal error")
